@@ -266,9 +266,21 @@ def execute(mcls, config, ops=None, rng=None, known=None, keep_events=False):
     return res
 
 
+# One run in MARATHON_EVERY is a *marathon*: the same configuration, but a history several
+# times as long as the ordinary cap (counters that overflow, caches that fill up or evict,
+# containers that grow past a size boundary, the k-th repetition of an operation).  Which
+# runs these are is a function of the run index alone, so the other runs' PRNG streams are
+# what they would be without marathons.
+MARATHON_EVERY = 40
+MARATHON_FACTOR = {"dipstore": 4}
+
+
 def run_generated(mcls, prop, seed, idx, tier, known=None, keep_events=False):
     rng = derive_rng(prop, seed, idx)
     config = mcls.gen_config(rng, prop, tier)
+    if idx % MARATHON_EVERY == 7 and "max_ops" in config:
+        config["max_ops"] = int(config["max_ops"]) * MARATHON_FACTOR.get(config.get("sub") or mcls.NAME, 10)
+        config["marathon"] = True
     config = json.loads(jdump(config))
     return execute(mcls, config, None, rng, known, keep_events)
 
